@@ -102,7 +102,7 @@ fn gen_max_step(rng: &mut Rng, span: f64) -> f64 {
     }
 }
 
-fn sampled(rng: &mut Rng) -> Scenario {
+pub(crate) fn sampled(rng: &mut Rng) -> Scenario {
     let m = gen_method(rng);
     let family = rng.int(0, 2);
     let entry = match family {
